@@ -42,6 +42,20 @@ def impl_blocks(rows, location=None):
 
     handlers = {bt: rec for bt in BlockType}
     out = []
+    # rows are "sequences": lists, tuples, 1-D object arrays (a grid given as numpy array), pandas Series
+    import zlib
+    form = zlib.crc32(repr(rows).encode("utf-8", "replace")) % 7
+    if form == 1:
+        rows = [tuple(r) for r in rows]
+    elif form == 2 and all(not isinstance(c, (list, tuple)) for r in rows for c in r):
+        import numpy as np
+        conv = []
+        for r in rows:
+            a = np.empty(len(r), dtype=object)
+            for k, c in enumerate(r):
+                a[k] = c
+            conv.append(a)
+        rows = conv
     for bt, (grid, row) in parse_blocks_stable(iter(rows), block_handlers=handlers, **kw):
         out.append({"ty": bt.name, "first": row, "rows": grid})
     return out
@@ -155,7 +169,11 @@ def oracle(rows, blocks, out, case):
 
 
 def oracle_prefix(rows, blocks, cut, out, case):
-    pb = impl_blocks(rows[:cut])
+    try:
+        pb = impl_blocks(rows[:cut])
+    except Exception as e:   # the splitter itself must not raise on any row sequence
+        out.fail("parse_blocks_stable raised", dict(case, cut=cut), repr(e), None, key="raised:" + type(e).__name__)
+        return
     if pb[:-1] != blocks[: max(len(pb) - 1, 0)]:
         out.fail("blocks of a prefix (minus the last) are not a prefix of the blocks of all rows",
                  dict(case, cut=cut), pb, blocks, key="prefix_stable")
@@ -257,6 +275,9 @@ def run(tier, seed, model_ok, translator, search=False):
              prefix_rng=rng, record=(i < 3))
     out.count("random_sequences", n_rand)
 
+    # (d) the same segmentation through read_excel: leading empty rows of a sheet count as rows
+    excel_route(rng, out, 40 if thorough else 8)
+
     # compare with the model
     if model_ok:
         answers = common.run_model(ops)
@@ -323,6 +344,49 @@ def _interleaved(rows, other, out, case, canon, run_alone, parse_blocks):
     if r1 != alone:
         out.fail("a reader delivers other blocks when a second reader (another output form) is consumed alongside it",
                  case, r1, alone, key="interleaved_readers")
+
+
+def excel_route(rng, out, n):
+    """worksheets with 0-3 completely empty leading rows, blank rows between small tables: the origin row of every
+    table read through read_excel is the sheet row its `**name` cell stands in"""
+    import os
+    import tempfile
+    import warnings
+    import openpyxl
+    import pdtable
+    d = tempfile.mkdtemp(prefix="pdt-c03-")
+    try:
+        for i in range(n):
+            lead = rng.choice([0, 1, 2, 3])
+            rows, starts = [[] for _ in range(lead)], []
+            for k in range(rng.randint(1, 3)):
+                rows += [[] for _ in range(rng.randint(0, 2))] if k else []
+                starts.append(len(rows))
+                rows += [[f"**t{k}"], ["all"], ["a", "b"], ["-", "text"], [1.5, "x"], [2, "y"], []]
+            wb = openpyxl.Workbook()
+            ws = wb.active
+            for r, row in enumerate(rows, start=1):
+                for c, v in enumerate(row, start=1):
+                    ws.cell(row=r, column=c, value=v)
+            p = os.path.join(d, f"s{i}.xlsx")
+            wb.save(p)
+            case = {"excel_rows": [[str(c) for c in r] for r in rows], "leading_empty_rows": lead}
+            out.evaluations += 1
+            out.count("excel_route:lead" + str(lead))
+            try:
+                with warnings.catch_warnings():
+                    warnings.simplefilter("ignore")
+                    got = [b.metadata.origin.input_location.row for bt, b in pdtable.read_excel(p) if bt.name == "TABLE"]
+            except Exception as e:  # noqa: BLE001
+                out.fail("read_excel raised on a sheet of well-formed tables", case, repr(e), None,
+                         key="excel_route:" + type(e).__name__)
+                continue
+            if got != starts:
+                out.fail("origin rows of the tables read through read_excel are not the sheet rows of their markers",
+                         case, got, starts, key="excel_route:origin_row")
+    finally:
+        import shutil
+        shutil.rmtree(d, ignore_errors=True)
 
 
 def _one(rows, case, out, ops, pending, model_ok, prefix_rng, record):
